@@ -206,6 +206,15 @@ def rule_N2(ctx: Ctx) -> None:
                   "escape validation: the enumeration is not exactly the valid configurations")
     ctx.judge(ai, len(sites) >= 4 and any("__subclasses__" in (s_["ranges_over"] or "") for s_ in sites), {"recursive_call_sites": len(sites)},
               "all_instances recurses into subclasses, field types, tuple items and union members (4 recursive call sites)")
+    # the enumeration validates elements, never the assembled tokenizer: MazeTokenizerModular.is_valid must be exactly "every element is valid"
+    # (a special case of its own would make enumerated tokenizers report themselves invalid)
+    tv = ctx.index.func(f"{MT}.MazeTokenizerModular.is_valid")
+    rets = X.returns_of(tv.node)
+    one = len(rets) == 1 and X.same_expr(rets[0].value, "all([el.is_valid() for el in self.tokenizer_elements])", "all(el.is_valid() for el in self.tokenizer_elements)")
+    extra = [X.U(r_.value)[:60] for r_ in rets if isinstance(r_.value, ast.Constant)]
+    ctx.judge(tv, True if one else False if extra else None, {"returns": [X.U(r_.value)[:80] for r_ in rets]},
+              "MazeTokenizerModular.is_valid() is all(el.is_valid() for el in self.tokenizer_elements) and nothing else",
+              "tokenizers that the enumeration yields (it validates element by element) report themselves invalid: 'every configuration that satisfies the validity rules ... and nothing else' fails")
     av = ctx.index.func("maze_dataset.utils._apply_validation_func")
     _judge_apply_validation(ctx, av)
     # the enumeration is recomputed on every call: validity is not a pure function of (type, validation map) - `mark_as_unsupported`
